@@ -74,8 +74,14 @@ def c06StaticNew (x : AgInfo) (p c : AgD) : Verdicts :=
   if vs.isEmpty then [] else
   let old := c06Static x p
   (vs.filter fun v => !old.contains v).map fun (pr, why) =>
+    -- the known-finding wording applies when the duplicate comes from MERGING existing pairs through a
+    -- peer-reflexive supersession: some pair on these addresses had a prflx remote before the op, has a
+    -- signalled one now, and the number of pairs on these addresses did not grow (a pair added twice is
+    -- a different defect and keeps the plain wording)
     let merged := c.pairs.any fun q => q.rty != 3 && (why.startsWith s!"the pair ({q.la}>{q.ra} type {q.rty}) is listed") &&
-      (p.pairs.filter fun o => o.la == q.la && o.ra == q.ra && o.rty == 3).length ≥ 2
+      (p.pairs.any fun o => o.la == q.la && o.ra == q.ra && o.rty == 3 && (c.pairs.any fun n => n.id == o.id && n.rty != 3)) &&
+      (p.pairs.filter fun o => o.la == q.la && o.ra == q.ra).length ≥ (c.pairs.filter fun o => o.la == q.la && o.ra == q.ra).length &&
+      (p.pairs.filter fun o => o.la == q.la && o.ra == q.ra).length ≥ 2
     (pr, if merged then why ++ ": pairs of two peer-reflexive candidates with one transport address were re-pointed to the same signalled candidate" else why)
 
 def c06Restart (c : AgD) : Verdicts :=
